@@ -111,3 +111,54 @@ def header_name_value(crate, const_path):
             if s is not None:
                 return s
     raise CheckError('UNRECOGNISED: initialiser of %s is not a from_static(const) call' % const_path)
+
+
+def token_of(cons):
+    """reconstruct the string/bytes token a row matched: either `x == "tok"` (str eq) or a byte-slice pattern
+    lowered to len == n plus x[i] == b constraints.  returns (token:str|None, subject)"""
+    d = cons_dict(cons)
+    for k, v in d.items():
+        if v[0] == '==' and isinstance(v[1], (str, bytes)):
+            tok = v[1] if isinstance(v[1], str) else v[1].decode('latin1')
+            return tok, k
+    lens = [(k, v[1]) for k, v in d.items() if v[0] == '==' and isinstance(v[1], int) and ('len(' in k or 'PtrMetadata' in k or k.startswith('un:PtrMetadata') or 'Len' in k)]
+    idx = {}
+    for k, v in d.items():
+        m = re.search(r'\[const\((\d+)\)\]$', k)
+        if m and v[0] == '==' and isinstance(v[1], int):
+            idx[int(m.group(1))] = v[1]
+    if idx:
+        n = max(idx) + 1
+        if all(i in idx for i in range(n)) and (not lens or lens[0][1] == n):
+            return ''.join(chr(idx[i]) for i in range(n)), 'bytes'
+    return None, None
+
+
+def bool_guard(cons, pred):
+    """value (True/False/None) of the boolean test whose subject satisfies pred(subject) in a row"""
+    for s, op, v in cons:
+        if pred(s):
+            if op == '==' and v == 0:
+                return False
+            if op == 'notin' and 0 in v:
+                return True
+            if op == '==' and v not in (0,):
+                return True
+            if op == '!=' and v == 0:
+                return True
+    return None
+
+
+def field_names(t):
+    """field path of a term as a flat list; precise-capture upvar names (`_ref__self__config__x`) are expanded"""
+    base, names = field_path(t)
+    out = []
+    for n in names:
+        if isinstance(n, str) and '__' in n:
+            parts = [p for p in n.split('__') if p and p not in ('_ref', '_ref_')]
+            if parts and parts[0] in ('_ref',):
+                parts = parts[1:]
+            out.extend(parts)
+        else:
+            out.append(n)
+    return out
